@@ -40,6 +40,9 @@ Specs are plain json-able data:
             | ['pmono', instrument, {key: valspec}]
             | ['ppar', [pattern...]] | ['pchain', pbind, pattern]
             | ['pdur', dur, pattern] | ['pdelta', time, pattern]
+            | ['pseq', [pattern...]] | ['pn', n, pattern]
+            | ['use', name]      (the same pattern object, defined in the
+                                  case's `shared` table; see expand())
 """
 
 import math
@@ -374,7 +377,55 @@ def timeline(p):
             keys.update(a[1])
             items.append((t0, Ev(keys, e.kind, e.mono, delta=e.delta)))
         return Timeline(items, tb.total, tb.releases, False, tb.flags)
+    if kind in ('pseq', 'pn'):
+        # embedding in place: the parts one after the other, each one a fresh
+        # embedding of its pattern (Pseq / Pn help)
+        parts = p[1] if kind == 'pseq' else [p[2]] * p[1]
+        items, rel, flags, t, seq = [], [], set(), 0.0, True
+        for c in parts:
+            tl = timeline(c)
+            items += [(t + o, e) for o, e in tl.items]
+            rel += [(t + r, m, x) for r, m, x in tl.releases]
+            flags |= tl.flags
+            seq = seq and tl.sequential
+            t += tl.total
+        return Timeline(items, t, rel, seq, flags)
     raise ValueError(p)
+
+
+def expand(p, shared):
+    """Replace ['use', name] (the same pattern OBJECT used at several places)
+    by its definition: every embedding of an object denotes what a fresh equal
+    pattern denotes."""
+    kind = p[0]
+    if kind == 'use':
+        return expand(shared[p[1]], shared)
+    if kind in ('pbind', 'pmono'):
+        return p
+    if kind in ('ppar', 'pseq'):
+        return [kind, [expand(c, shared) for c in p[1]]]
+    if kind == 'pchain':
+        return [kind, p[1], expand(p[2], shared)]
+    if kind in ('pdur', 'pdelta', 'pn'):
+        return [kind, p[1], expand(p[2], shared)]
+    raise ValueError(p)
+
+
+def stopped(tl, stop):
+    """The part of a timeline a player produces when it is stopped `stop`
+    after its start (stop is never an onset): elements before the stop; voices
+    of Pmono that are sounding are released at the stop."""
+    items = [(t, e) for t, e in tl.items if t < stop]
+    alive = {e.mono[0] for t, e in items if e.mono}
+    rel = []
+    for t, m, x in tl.releases:
+        if m not in alive:
+            continue
+        if t > stop:
+            rel.append((stop, m, True))
+        else:
+            rel.append((t, m, x))
+    return Timeline(items, min(tl.total, stop), rel, tl.sequential, tl.flags)
 
 
 def _ended_before(tl, mono_id, d):
